@@ -357,6 +357,10 @@ def resolveIncludePath (fs : Fs) (includePaths : List Bytes) (p0 : Bytes) : Byte
 def commentEmit (stripComments : Bool) (text : Bytes) : Bytes :=
   if !stripComments then text else if text.getLast? == some 10 then [10] else [32]
 
+/-- the macro name of a `TextMacroUsage` node as `resolve_text_macro_usage` reads it (`identifier((&name.nodes.0).into(), &s)`) -/
+def usageName (K : PpKinds) (inp : Input) (x : Tree) : Bytes :=
+  (match (x.kids.drop 1).head? with | some name => identOf K inp name | none => none).getD []
+
 structure Cfg where
   K : PpKinds
   g : Grammar
@@ -718,7 +722,7 @@ def resolveUsage (C : Cfg) : Nat → Input → Bytes → Bytes → Tree → Defi
   | 0, _, _, _, _, _, _, _, _, _ => .error .oof
   | fuel + 1, inp, _s, path, x, defines, ignoreInclude, stripComments, resolveDepth, includeDepth =>
     let K := C.K
-    let id := (match (x.kids.drop 1).head? with | some name => identOf K inp name | none => none).getD []
+    let id := usageName K inp x
     if resolveDepth > recursiveLimit then .error .exceedRecursiveLimit
     else
       let parenKids := x.kids.drop 2
